@@ -392,6 +392,22 @@ def _started_or_cleaned(ctx, sync, graph, loop):
             return True         # found in clean-up after all: fine
         return edge.kind == 'true' and edge.src.kind == 'test' and any(
             K.is_meth(c, '_configure') for c in K.test_calls(sync, edge.src))
+    # ... and never both: once _configure returned true the container is
+    # running, it is not handed to clean-up in the same pass
+    for test in [n for n in body if n.kind == 'test' and any(
+            K.is_meth(c, '_configure') for c in K.test_calls(sync, n))]:
+        for edge in test.succ:
+            if edge.kind != 'true':
+                continue
+            both = K.find_path_cp(graph, edge.dst, handover,
+                                  cut_node=lambda n: n is loop,
+                                  follow_exc=False) \
+                if edge.dst not in handover else [edge.dst]
+            ctx.ob('C13.1', sync, test, both is None,
+                   'a container that was just started is not handed to '
+                   'clean-up as well',
+                   path=K.describe(both) if both else None,
+                   construct='started xor cleaned')
     for start in starts:
         path = K.find_path_cp(graph, start, [loop],
                               cut_node=lambda n: n in handover,
@@ -427,6 +443,56 @@ def _abort_flag_first(ctx):
     ctx.ob('C13.3', func, flags[0], not late,
            'the aborted flag is written before the running link is moved '
            'to clean-up', construct='abort flag before hand-over')
+
+
+def _configure_result(ctx, acm):
+    """C13.6: _configure answers True only after it created the running
+    link (its callers take True for "running"), and _terminate tolerates
+    exactly a running link that is already gone."""
+    conf = acm.methods.get('_configure')
+    term = acm.methods.get('_terminate')
+    ctx.require(conf is not None and term is not None,
+                'AppCfgMgr._configure / _terminate')
+    cgraph = ctx.cfg(conf)
+    links = [n for n in cgraph.nodes if any(
+        K.callee_text(c) in ('fs.symlink_safe', 'os.symlink') and c.args and
+        'running_dir' in K.rtxt(conf, c.args[0])
+        for c in C.node_calls(n))]
+    ctx.require(links, 'running link creation in _configure', rule='C13.6')
+    for ret in [n for n in cgraph.nodes if n.kind == 'return']:
+        val = ret.ast.value
+        truthy = isinstance(val, ast.Constant) and bool(val.value)
+        if val is None or (isinstance(val, ast.Constant) and not truthy):
+            continue
+        ok = K.guarded_by(cgraph, ret, lambda e: e.src in links and
+                          e.kind != 'exc')
+        ctx.ob('C13.6', conf, ret, ok,
+               '_configure reports success only after the running link was '
+               'created', construct='configure success')
+    res = acm.methods.get('_resolve_running_link')
+    if res is not None:
+        K.tolerance_polarity(ctx, 'C13.2', res)
+    tgraph = ctx.cfg(term)
+    tnz = N.Normaliser()
+    for hnode in [n for n in tgraph.nodes if n.kind == 'test' and
+                  'errno' in N.txt(n.ast)]:
+        atom = tnz.atom(hnode.ast)
+        terms = [t for t, _c in atom.key[2]] if atom.key[0] == 'cmp' else []
+        if 'errno.ENOENT' not in terms:
+            continue
+        raises = [n for n in tgraph.nodes if n.kind == 'raise_stmt']
+        benign = 'true' if atom.key[1] == '==' else 'false'
+        ok = bool(raises) and all(
+            not any(r in K.cut_reach(tgraph, e.dst, follow_exc=False)
+                    for r in raises)
+            for e in hnode.succ if e.kind == benign) and all(
+                any(r in K.cut_reach(tgraph, e.dst, follow_exc=False)
+                    for r in raises)
+                for e in hnode.succ if e.kind not in (benign, 'exc'))
+        ctx.ob('C13.2', term, hnode, ok,
+               'the hand-over tolerates exactly a running link that is '
+               'already gone (ENOENT); any other failure is raised',
+               construct='terminate tolerance')
 
 
 def _keep_running(ctx, acm, sync, graph, loop, cvar, ksync):
@@ -484,10 +550,68 @@ def _gating(ctx, acm):
             ctx.ob('C13.5', func, dot, ok,
                    'the ready marker (a dot name) is recognised before dot '
                    'names are ignored')
+        # polarity: it is the marker / the dot names that take the early
+        # exit - the positive outcome of either test ends the handler (after
+        # the first sync for the marker), everything else falls through
+        for test, kind in [(t, 'ready') for t in ready] + \
+                [(t, 'dot') for t in dots]:
+            atom = nz.atom(test.ast)
+            pos = atom.key[0] == 'cmp' and atom.key[1] == '=='
+            neg = atom.key[0] == 'cmp' and atom.key[1] == '!='
+            hit = [e for e in test.succ
+                   if (pos and e.kind == 'true') or (neg and e.kind == 'false')]
+            acts0 = [n for n, c in K.nodes_calling(
+                graph, lambda c: K.is_meth(c, '_configure', '_terminate'))]
+            okp = bool(hit) and all(
+                not any(a in K.cut_reach(graph, e.dst, follow_exc=False)
+                        for a in acts0) for e in hit)
+            if kind == 'ready' and fname != '_on_deleted':
+                syncs = [n for n, c in K.nodes_calling(
+                    graph, lambda c: K.is_meth(c, '_first_sync'))]
+                okp = okp and bool(syncs) and all(
+                    e.dst in syncs or K.find_path(
+                        e.dst, [graph.exit], cut_node=lambda n: n in syncs,
+                        follow_exc=False) is None for e in hit) and all(
+                            K.guarded_by(graph, s, lambda e2: e2 in hit)
+                            for s in syncs)
+            ctx.ob('C13.5', func, test, okp,
+                   'the %s test takes the early exit on its positive '
+                   'outcome%s' % (kind, ' and triggers the first sync' if
+                                  kind == 'ready' and fname != '_on_deleted'
+                                  else ''),
+                   construct='%s test polarity in %s' % (kind, fname))
         if fname == '_on_modified':
             continue
         acts = [n for n, c in K.nodes_calling(
             graph, lambda c: K.is_meth(c, '_configure', '_terminate'))]
+        # an event that is not ignored is acted upon: a created entry without
+        # a running link is configured, a deleted entry is terminated
+        want = '_configure' if fname == '_on_created' else '_terminate'
+        wnodes = [n for n, c in K.nodes_calling(
+            graph, lambda c: K.is_meth(c, want))]
+
+        def ignoring(edge):
+            if edge.src in ready or edge.src in dots:
+                atom = nz.atom(edge.src.ast)
+                return (atom.key[1] == '==') == (edge.kind == 'true')
+            for a in nz.facts_of_edge(edge):
+                if a.key[0] == 'is' and 'self._is_active' in a.key[1:3] \
+                        and 'False' in a.key[1:3] and a.key[3]:
+                    return True
+                if a.key[0] == 'truth' and a.key[2] and \
+                        'islink' in a.key[1] and 'running_dir' in a.key[1]:
+                    return True
+            return False
+        skipw = K.find_path(graph.entry, [graph.exit],
+                            cut_node=lambda n: n in wnodes,
+                            cut_edge=ignoring, follow_exc=False)
+        ctx.ob('C13.5', func, wnodes[0] if wnodes else None,
+               bool(wnodes) and skipw is None,
+               'an event that is not ignored (marker, dot name, inactive%s) '
+               'reaches %s' % (', running link exists' if
+                               fname == '_on_created' else '', want),
+               path=K.describe(skipw) if skipw else None,
+               construct='%s acts' % fname)
         for node in acts:
             ok = K.guarded_by(graph, node, lambda e: any(
                 a.key[0] == 'is' and 'self._is_active' in a.key[1:3] and
@@ -512,8 +636,16 @@ def _gating(ctx, acm):
     first = acm.methods.get('_first_sync')
     ctx.require(first is not None, 'AppCfgMgr._first_sync')
     src = ast.unparse(first.node)
+    fgraph = ctx.cfg(first)
+    syn = [n for n, c in K.nodes_calling(
+        fgraph, lambda c: K.is_meth(c, '_synchronize'))]
+    fnz = N.Normaliser()
+    inactive = all(K.guarded_by(fgraph, s, lambda e: any(
+        a.key[0] == 'is' and 'self._is_active' in a.key[1:3] and
+        'True' in a.key[1:3] and not a.key[3]
+        for a in fnz.facts_of_edge(e))) for s in syn)
     ctx.ob('C13.5', first, None, 'self._is_active = True' in src and
-           'self._synchronize()' in src,
+           bool(syn) and inactive,
            'the ready marker activates the manager and triggers a resync',
            construct='activate + resync')
 
@@ -732,6 +864,7 @@ def check(ctx):
     _terminal_files(ctx, sync, graph, loop)
     _started_or_cleaned(ctx, sync, graph, loop)
     _abort_flag_first(ctx)
+    _configure_result(ctx, acm)
     _keep_running(ctx, acm, sync, graph, loop, cvar, ksync)
     _gating(ctx, acm)
     _running_owner(ctx, acm)
